@@ -5,9 +5,9 @@ from . import gen_common as G
 from .canon import dec as C_dec
 import copy
 
-OP_GROUPS = ["net", "xform", "ssm", "cir", "td", "tran", "imp", "sig", "ld", "file", "churn"]
+OP_GROUPS = ["net", "xform", "ssm", "cir", "td", "tran", "imp", "sig", "ld", "file", "churn", "reent"]
 # groups with many leaf kinds and short menu items are drawn more often, so that step kinds are balanced
-GROUP_WEIGHT = {"net": 4, "xform": 2, "cir": 2, "ld": 2, "churn": 2}
+GROUP_WEIGHT = {"net": 4, "xform": 2, "cir": 2, "ld": 2, "churn": 2, "reent": 2}
 
 
 def plan(seed, overrides=None):
@@ -416,6 +416,76 @@ def _script(r, client, world, counter):
                 add("ld.undictify_all", {"doc": P("ndoc0")})
             else:
                 add("ld.dictify_all", {"doc": P("doc0")})
+        elif g == "reent":
+            # a caller-supplied callable that itself calls the library: the SAME kind of analysis on another object
+            # (preferably a near-duplicate, so that sizes agree) runs in the middle of the outer one
+            def other(names, cur):
+                sibs = [x for x in names if x != cur and (x.rstrip("s") == cur.rstrip("s"))]
+                rest = [x for x in names if x != cur]
+                return r.choice(sibs) if sibs and r.random() < 0.6 else (r.choice(rest) if rest else cur)
+            k = r.choice(["solve", "solve", "coef", "port", "ssm", "dc", "cx", "td", "tran", "ser", "dump"])
+            at = r.choice([0, 1, 1, 2, 3])
+            when = r.choice(["before", "after"])
+
+            def nest(host, inner_steps):
+                host["nested"] = [{"at": at, "when": when, "steps": inner_steps}]
+                host["wrap"] = True
+
+            def mk(op, a):
+                counter[0] += 1
+                return {"id": f"s{counter[0]}", "client": client, "op": op, "a": a}
+            if k == "solve":
+                h = add("net.solve", {"net": P(net)})
+                inner = mk("net.solve", {"net": P(other(world["nets"], net))})
+                nest(out[-1], [inner, mk("nsol.all", {"sol": {"h": inner["id"]}})])
+                add("nsol.all", {"sol": h})
+            elif k == "coef":
+                f = r.choice(["nodal_analysis_coefficient_matrix", "node_admittance_matrix", "nodal_analysis_constants_vector"])
+                add("net.matrix", {"net": P(net), "f": f})
+                nest(out[-1], [mk("net.matrix", {"net": P(other(world["nets"], net)), "f": f})])
+            elif k == "port":
+                f = r.choice(["oci", "eli"])
+                a = {"net": P(net), "f": f}
+                b = {"net": P(other(world["nets"], net)), "f": f}
+                if f == "eli":
+                    a["id"] = r.choice(nids); b["id"] = r.choice(nids)
+                else:
+                    a["n1"], a["n2"] = r.choice(nnodes), r.choice(nnodes)
+                    b["n1"], b["n2"] = a["n1"], a["n2"]
+                add("net.port", a)
+                nest(out[-1], [mk("net.port", b)])
+            elif k == "ssm":
+                h = add("net.ssm", {"net": P(net), "cv": P(net + "_cv"), "lv": P(net + "_lv")})
+                o = other(world["nets"], net)
+                inner = mk("net.ssm", {"net": P(o), "cv": P(o + "_cv"), "lv": P(o + "_lv")})
+                nest(out[-1], [inner])
+                add("ssm.all", {"ssm": h})
+            elif k in ("dc", "cx", "td"):
+                opn = {"dc": "cir.dc", "cx": "cir.cx", "td": "cir.td"}[k]
+                extra = {} if k == "dc" else ({"w": r.choice([0, 10.0, 100.0])} if k == "cx" else {"w_max": r.choice([0, 50.0, 400.0])})
+                h = add(opn, dict({"cir": P(cir)}, **extra))
+                inner = mk(opn, dict({"cir": P(other(world["cirs"], cir))}, **extra))
+                nest(out[-1], [inner, mk("csol.all", {"sol": {"h": inner["id"]}})] if k != "td" else [inner])
+                if k == "td":
+                    fn = add("tdsol.fn", {"sol": h, "q": "voltage", "id": r.choice(cids)})
+                    add("fn.eval", {"fn": fn, "t": P("tgrid")})
+                else:
+                    add("csol.all", {"sol": h})
+            elif k == "tran":
+                h = add("cir.tran", {"cir": P(cir), "tin": P("tgrid"), "inputs": P(cir + "_inputs")})
+                o = other(world["cirs"], cir)
+                inner = mk("cir.tran", {"cir": P(o), "tin": P("tgrid"), "inputs": P(o + "_inputs")})
+                nest(out[-1], [inner])
+                add("csol.all", {"sol": h})
+            elif k == "ser":
+                fmt = r.choice(["json", "yaml"])
+                t = add("ld.serialize", {"doc": P("doc0"), "fmt": fmt})
+                nest(out[-1], [mk("ld.serialize", {"doc": P("ndoc0"), "fmt": r.choice(["json", "yaml"])})])
+                add("ld.deserialize", {"text": t, "fmt": fmt})
+            else:
+                add("ld.dump", {"path": "a.json", "doc": P("doc0")})
+                nest(out[-1], [mk("ld.dump", {"path": "side.json", "doc": P("ndoc0")}), mk("ld.load", {"path": "side.json"})])
+                add("ld.load", {"path": "a.json"})
         elif g == "churn":
             # load / transform, solve, query, drop - again and again: results die, their memory is reused
             for _ in range(r.randint(2, 4)):
@@ -482,7 +552,7 @@ def _interleave(r, scripts, cfg, seam_ops=SEAM_OPS, nest_ok=None):
                             n["nested"] = [{"at": 0, "steps": [queues[r.choice(deeper)].pop(0)]}]
                     nested.append(n)
                 if nested:
-                    s["nested"] = [{"at": r.choice([0, 0, 0, 1, 2]), "when": r.choice(["before", "before", "after"]), "steps": nested}]
+                    s.setdefault("nested", []).append({"at": r.choice([0, 0, 1, 1, 2, 3]), "when": r.choice(["before", "before", "after"]), "steps": nested})
         steps.append(s)
     return steps
 
